@@ -26,7 +26,7 @@ second change (`gov2= cfg2=`), then the results and balance deltas.
 -/
 import PvModel.TxfeeSpec
 import PvModel.Util
--- registry: txfee PvModel.Txfee.driver
+-- (registered through PvModel/TxfeeSeqDriver.lean, which adds the `seq` / `mempool` ops)
 
 namespace PvModel.Txfee
 open PvModel
@@ -51,10 +51,11 @@ private def sendEffect (f t : Addr) (cs : Coins) : Ledger → Except Err Ledger 
   | some l' => .ok l'
   | none => .error .funds
 
-/-- exchange `CreatePayment`: a second payment with the same external id is refused. -/
-private def payEffect (id : String) : Ledger → Except Err Ledger := fun l =>
-  if Ledger.bal l ("pay:" ++ id) "id" > 0 then .error .invalid
-  else .ok (l.credit ("pay:" ++ id) [("id", 1)])
+/-- exchange `CreatePayment`: a second payment of the same source with the same external id is
+refused (payments are keyed by (source, external id)). -/
+private def payEffect (src id : String) : Ledger → Except Err Ledger := fun l =>
+  if Ledger.bal l ("pay:" ++ src ++ ":" ++ id) "id" > 0 then .error .invalid
+  else .ok (l.credit ("pay:" ++ src ++ ":" ++ id) [("id", 1)])
 
 /-- authz `DispatchActions`: a message of another signer needs a grant. -/
 private def authGuard (auth : Bool) : Ledger → Except Err Ledger := fun l =>
@@ -66,18 +67,20 @@ private def dash (s : String) : String := if s = "-" then "" else s
 whose children are the messages in between; `stack` holds, innermost first, the sibling forests
 collected so far at the enclosing levels.  What the router and the handlers do (`Tx.steps`) and
 what the ante handler sees (`Tx.top`) are then the model's `Forest.flatten` / `Forest.roots` —
-the functions the nested-message theorems of `PvProofs.C08` are about. -/
-def bodyForest (auth : Bool) (payfee : Option Coin) :
+the functions the nested-message theorems of `PvProofs.C08` are about.  `payer` is the signer of
+the transaction (the grantee of its `MsgExec`s, the source of its payments); the only authz grant
+the harness ever sets up is X → P (`auth`). -/
+def bodyForest (auth : Bool) (payfee : Option Coin) (payer : Addr) :
     List String → List Forest → Forest → List (Addr × Addr × Coins) → Option (Forest × List (Addr × Addr × Coins))
   | [], stack, cur, sends => if stack.isEmpty then some (cur, sends) else none
   | tk :: rest, stack, cur, sends =>
-    if tk = "" ∨ tk = "-" then bodyForest auth payfee rest stack cur sends
-    else if tk = "exec(" then bodyForest auth payfee rest (cur :: stack) .nil sends
+    if tk = "" ∨ tk = "-" then bodyForest auth payfee payer rest stack cur sends
+    else if tk = "exec(" then bodyForest auth payfee payer rest (cur :: stack) .nil sends
     else if tk = ")" then
       match stack with
       | [] => none
       | outer :: st =>
-        bodyForest auth payfee rest st (outer.append (.node [] { typ := "exec" } [] cur .nil)) sends
+        bodyForest auth payfee payer rest st (outer.append (.node [] { typ := "exec" } [] cur .nil)) sends
     else
       match tk.splitOn ":" with
       | ["send", f, t, cs] =>
@@ -86,8 +89,9 @@ def bodyForest (auth : Bool) (payfee : Option Coin) :
         | some coins =>
           -- authz `DispatchActions` checks the grant of an inner message of another signer
           -- BEFORE routing it
-          let guard : List Step := if stack.length > 0 ∧ f ≠ "P" then [.effect (authGuard auth)] else []
-          bodyForest auth payfee rest stack
+          let guard : List Step :=
+            if stack.length > 0 ∧ f ≠ payer then [.effect (authGuard (auth && f == "X" && payer == "P"))] else []
+          bodyForest auth payfee payer rest stack
             (cur.append (.node guard { typ := "send" } [.effect (sendEffect f t coins)] .nil .nil))
             (sends ++ [(f, t, coins)])
       | ["assess", c, rcp, bips] =>
@@ -96,13 +100,13 @@ def bodyForest (auth : Bool) (payfee : Option Coin) :
         | some coin =>
           let b : Option Nat := if bips = "-" then none else bips.toNat?
           let m : RMsg := { typ := "assess", assess := some { amount := coin, recipient := dash rcp, bips := b } }
-          bodyForest auth payfee rest stack (cur.append (.node [] m [] .nil .nil)) sends
+          bodyForest auth payfee payer rest stack (cur.append (.node [] m [] .nil .nil)) sends
       | ["pay", id] =>
         let fee : List Step := match payfee with
           | some c => [.consume "pay" [c]]
           | none => []
-        bodyForest auth payfee rest stack
-          (cur.append (.node [] { typ := "pay" } ([.effect (payEffect id)] ++ fee) .nil .nil)) sends
+        bodyForest auth payfee payer rest stack
+          (cur.append (.node [] { typ := "pay" } ([.effect (payEffect payer id)] ++ fee) .nil .nil)) sends
       | _ => none
 
 def parseSched (s : String) : Option (List (String × MsgFee)) :=
@@ -154,7 +158,7 @@ def parseOp (ws : List String) : Option Op := do
   let sig := kv ws "sig" = some "ok"
   let force := kv ws "force" = some "1"
   let body := ((kv ws "body").getD "").splitOn ";"
-  let (forest, sends) ← bodyForest auth payfee body [] .nil []
+  let (forest, sends) ← bodyForest auth payfee "P" body [] .nil []
   let obs := ((kv ws "obs").getD "--").toList
   let oc := obs.head? = some 'g'
   let od := obs.drop 1 |>.head?
